@@ -266,10 +266,20 @@ func lifecycleOracleOn(c *Ctx, evs []vh.Event, cfgExtensions []string) {
 		for b := range extExec {
 			known[b] = true
 		}
+		// agents survive a failed init until the next reset clears them: a line may name an extension
+		// that registered in an earlier episode since the last clear
+		lastClear := int64(0)
+		for _, e := range evs {
+			if e.Src == "hook" && e.Kind == "hit" && e.Op == "rapidCtx.beforeClear" && e.Seq < ep.start {
+				lastClear = e.Seq
+			}
+		}
 		for _, cl := range calls {
+			if cl.op == "register" && cl.callSeq > lastClear && cl.callSeq < end {
+				known[cl.extra["name"]] = true
+			}
 			if cl.op == "register" && cl.callSeq > ep.start && cl.callSeq < end {
 				n := cl.extra["name"]
-				known[n] = true
 				if cl.retSeq != 0 && cl.retSeq < firstLine && cl.status == 200 && len(ep.extLines) > 0 {
 					c.Check(names[n] == 1, "one_line_per_extension", "C15/missing-registered-extension-line", "an extension registered before the status lines were emitted is not listed", n)
 				}
